@@ -877,6 +877,8 @@ class Analyzer:
                 yi = st.itv_term(b.lazy[2])
                 if yi[0] >= 1:
                     it = imeet(it, (0, yi[1] - 1))
+                    if b.lazy[2][0] == "s":
+                        st.diffs[(sid, b.lazy[2][1])] = min(st.diffs.get((sid, b.lazy[2][1]), INF), b.lazy[2][2] - 1)
             v.sym = (sid, 0)
             st.syms[sid] = it
             v.ty = None
